@@ -149,9 +149,11 @@ pub fn grammar(cases: &str, seed: u64, out: &str) {
         let s: String = toks.iter().map(|t| random_case(&mut r, t)).collect::<Vec<_>>().join("");
         let k = (i % 3) as usize;
         let (lo, hi) = WINDOWS[k];
-        let via_type = i % 2 == 1;
+        let via_type = r.coin();
         // every third triple of cases goes through the Python-facing class: its constructor, then its own predicates
-        let via_py = (i / 3) % 3 == 2;
+        // (drawn, not computed from the case number: TLC writes the token sequences in an order in which the LAST token has
+        //  period 9, so that any arithmetic choice on i sends only names ending in a separator - all invalid - down one route)
+        let via_py = r.below(3) == 2;
         let ev = match guard(|| if via_py { cpy::named_new(&s).map_err(|_| ()) } else { NamedCal::try_new(&s).map_err(|_| ()) }) {
             Outcome::Ok(Ok(nc)) => {
                 if via_py {
